@@ -115,7 +115,7 @@ def run(tier):
             vmeta.append((c, it, types, declared))
     answers = model_batch_parallel(reqs) if reqs else []
     ok_jobs = 0
-    for (c, it, vs, types, res), ans in zip(meta, answers):
+    for ri, ((c, it, vs, types, res), ans) in enumerate(zip(meta, answers)):
         if not ans.get("ok"):
             chk.count("oracle-refused:" + str(ans.get("error"))[:30])
             continue
@@ -129,6 +129,24 @@ def run(tier):
                 chk.count("symbolic-type-values")
                 continue
             extra = sorted(Fr(x) for x in s if Fr(x) not in tv)
+            if extra and v.startswith("_"):
+                # Auxiliaries introduced by the normalisation have no initial value; this harness gives them the placeholder ARB.  When
+                # the loop guard is false from the start their guarded first assignment never happens, and unguarded auxiliaries
+                # computed from them (`_r2 = _old0 + g - 3`) inherit the placeholder.  Such values are artefacts of the placeholder, not
+                # values the variable holds in an execution of the source program: they are recognised by re-running with a second
+                # placeholder for the auxiliaries only (source variables keep theirs) -- a value that survives both runs is real.
+                s0b = dict(reqs[ri]["sigma0"])
+                for nm in list(s0b):
+                    if nm.startswith("_") and s0b[nm] == ARB:
+                        s0b[nm] = "89/7"
+                from ..common import model_one
+                second = model_one(dict(reqs[ri], sigma0=s0b), timeout=60)
+                if second.get("ok"):
+                    s2 = second["sets"][list(vs).index(v)]
+                    keep = [x for x in extra if s2 is not None and any(Fr(y) == x for y in s2)]
+                    if len(keep) < len(extra):
+                        chk.count("auxiliary-placeholder-artefact")
+                    extra = keep
             if extra:
                 bad = (v, "value outside the inferred type", [H.fr_str(x) for x in extra])
                 break
